@@ -372,7 +372,32 @@ def c02f(ctx):
                      "be the state before another task published the node" % f)
 
 
+def c02g(ctx):
+    """CompressedBackwardEdgeSet: when the small vector is upgraded to the large set, every element drained from the vector
+    is inserted into the new set (each is a backward edge; a dropped one is a caller that is never invalidated)."""
+    prog = ctx.prog
+    o = ctx.ob("C02.g", "CompressedBackwardEdgeSet::insert_element/upgrade-keeps-every-element", "K2",
+               "every item taken out of the small vector by the tier upgrade is inserted into the large set before the next item is taken")
+    b = ctx.touch(prog.body("<CompressedBackwardEdgeSet as ConcurrentSet>::insert_element"))
+    nx = [s_ for s_ in b.calls_to(r"Iterator::next$") if "Drain" in (s_.node["fn"].get("res_key") or "") + " ".join(s_.node["fn"].get("gargs", [])) + (s_.node["fn"].get("self_ty") or "")]
+    if not nx:
+        nx = [s_ for s_ in b.calls_to(r"Iterator::next$")]
+    ins = b.calls_to(r"DashSet::<K, S>::insert$")
+    o.sites = len(nx) + len(ins)
+    if len(nx) != 1 or not ins:
+        ctx.fail(o, Site(b, 0, 0), "anchor missing: the drain loop of the tier upgrade (next=%d, DashSet::insert=%d)" % (len(nx), len(ins)))
+    else:
+        sb = nx[0].node["t"]
+        some = [tb for s2, tb, v, c in df.variant_edges(b, "Option") if s2 == sb and v == 1]
+        if not some:
+            ctx.fail(o, nx[0], "anchor missing: the Some edge of the drain loop")
+        for tb in some:
+            if b.must_pass([tb], [i_.bb for i_ in ins], to_bbs=[nx[0].bb] + b.returns()):
+                ctx.fail(o, nx[0], "the tier upgrade can take an element out of the small vector and go on without inserting it into the large set: that backward edge is lost")
+
+
 def run(ctx):
     ctx.run_clause("C02.f", c02f)
+    ctx.run_clause("C02.g", c02g)
     for c, f in (("C02.a", c02a), ("C02.b", c02b), ("C02.c", c02c), ("C02.c", c02c2), ("C02.d", c02d), ("C02.e", c02e)):
         ctx.run_clause(c, f)
